@@ -461,8 +461,11 @@ func replayRing(sc *ringSched, stats map[string]int) string {
 	return ""
 }
 
+var ringOwn string
+
 func cmdRingReplay(a Args) {
 	service.VerifYieldFn = ringYield
+	ringOwn = a.str("own", "")
 	res := newResult()
 	if ms := a.num("stepms", 0); ms > 0 {
 		ringStepTimeout = time.Duration(ms) * time.Millisecond
@@ -474,7 +477,9 @@ func cmdRingReplay(a Args) {
 		}
 		// the verdict is clear after a few confirmed blocked steps (each costs three deadlines)
 		// or many mismatches: skip the rest of this shard
-		if res.Counts["blocked_confirmed"] >= 3 || res.NMismatch >= 300 {
+		// (the running property's own observations decide when enough has been seen; those of the other ring property
+		// only bound the run time)
+		if res.Counts["blocked_confirmed"] >= 3 || res.Counts["tag:"+ringOwn] >= 100 || res.NMismatch >= 3000 {
 			res.Counts["skipped_after_violation"]++
 			return nil
 		}
@@ -507,6 +512,14 @@ func cmdRingReplay(a Args) {
 			if strings.Contains(d, "the code went on to") || strings.HasSuffix(d, ".wait\"") || strings.HasSuffix(d, ".parked\"") {
 				tag = "C14"
 			}
+			// the code is about to move a cursor or copy bytes where the specification does something else first (e.g.
+			// releases bytes before they were handed out): the order of these steps is what keeps the FIFO intact
+			for _, site := range []string{"rc.set", "wc.set", "w.copy", "r.copy"} {
+				if strings.Contains(d, "the code stopped at \""+site+"\"") {
+					tag = "C14"
+				}
+			}
+			res.Counts["tag:"+tag]++
 			res.mismatch(Mismatch{What: d, Tag: tag, Replay: map[string]interface{}{"schedule": sc.H}})
 		}
 		if len(res.Samples) < 2 && len(sc.H) > 12 {
